@@ -462,12 +462,7 @@ def make_builtins(interp):
 
     @reg("zip")
     def _(i, a, k, n):
-        cols = []
-        for x in a:
-            kind, items = i.iterate(x, n)
-            if kind != "known":
-                raise Unsupported("zip of unknown", n)
-            cols.append(items)
+        cols = [i.materialize(x, n) for x in a]
         return ListV([tuple(t) for t in zip(*cols)])
 
     @reg("range")
@@ -644,6 +639,28 @@ def make_builtins(interp):
     @reg("iter")
     def _(i, a, k, n):
         return IterV(a[0])
+
+    @reg("next")
+    def _(i, a, k, n):
+        it_ = a[0]
+        if not isinstance(it_, IterV):
+            raise Unsupported(f"next() of {it_!r}", n)
+        if it_.items is None:
+            if it_.consumed:
+                it_.items = []
+            else:
+                it_.items = list(i.materialize(it_, n)) if it_.fn is not None or it_.kind == "generator" else list(i.materialize(it_.source, n))
+                it_.consumed = True
+            it_.pos = 0
+        if it_.pos < len(it_.items):
+            v = it_.items[it_.pos]
+            it_.pos += 1
+            return v
+        if len(a) > 1:
+            return a[1]
+        from .interp import AbsRaise
+
+        raise AbsRaise(i.make_exc("StopIteration"), i.site(n), True)
 
     @reg("filter")
     def _(i, a, k, n):
